@@ -269,7 +269,8 @@ func (c *Classifier) getRowAndColumnCount(t *html.Node) (int, int) {
 
 		// Now look for column-related info
 		columnsInThisRow := 0
-		cells := dom.GetElementsByTagName(trs[i], "td")
+		// The cells of a row are its <td> and its <th> elements
+		cells := dom.QuerySelectorAll(trs[i], "td,th")
 		for j := 0; j < len(cells); j++ {
 			strColSpan := dom.GetAttribute(cells[j], "colspan")
 			colSpan, _ := strconv.Atoi(strColSpan)
